@@ -458,6 +458,16 @@ func TestDictionary(t *testing.T) {
 	}
 }
 
+// TestConcurrent (variant "conc", -race): the whole registry run from 8
+// goroutines at once on batches of generated inputs.
+func TestConcurrent(t *testing.T) {
+	if vp.Variant() != "conc" {
+		t.Skip("runs in the conc variant (-race)")
+	}
+	vp.RunConcurrent(t, textProp, 60, 32, 8)
+	vp.RunConcurrent(t, bytesProp, 40, 32, 8)
+}
+
 func TestText(t *testing.T)    { vp.Run(t, textProp) }
 func TestIPBytes(t *testing.T) { vp.Run(t, bytesProp) }
 func TestReplay(t *testing.T)  { vp.Replay(t) }
